@@ -31,8 +31,8 @@ Inductive zml := LZ | LM.                 (* letters of the Z/M marker *)
 
 Definition tuple := list Z.               (* the numbers of one coordinate text *)
 
+(* POINT(x y) is a one-element list of tuples: the text alone does not tell it from LINESTRING's *)
 Inductive wbody :=
-| W0 (t : tuple)
 | W1 (l : list tuple)
 | W2 (l : list (list tuple))
 | W3 (l : list (list (list tuple))).
@@ -52,7 +52,7 @@ Variable orc : oracle.
    GeoCircle(center, outer_radius).bounding_coords(k) and GeoCircle(center, inner_radius)... *)
 Definition write (k : option Z) (g : geom) : wkt :=
   match g with
-  | GPoint c => mkwkt (Some TPoint) true [] (W0 (tuple_of c))
+  | GPoint c => mkwkt (Some TPoint) true [] (W1 [tuple_of c])
   | GLine vs => mkwkt (Some TLine) true [] (W1 (wring vs))
   | GMPoint cs => mkwkt (Some TMPoint) true [] (W1 (wring cs))
   | GMLine ls => mkwkt (Some TMLine) true [] (W2 (map wring ls))
@@ -131,7 +131,7 @@ Definition gate (t : wtag) (w : wkt) : bool :=
   | Some t' =>
       wtag_eqb t t' &&
       match t, w_body w with
-      | TPoint, W0 c => arity_ok c
+      | TPoint, W1 [c] => arity_ok c
       | TLine, W1 l | TMPoint, W1 l => nonempty l && forallb arity_ok l
       | TPoly, W2 l | TMLine, W2 l => nonempty l && forallb (fun r => nonempty r && forallb arity_ok r) l
       | TMPoly, W3 l =>
@@ -143,7 +143,6 @@ Definition gate (t : wtag) (w : wkt) : bool :=
 
 Definition parse_body (m : list zml) (b : wbody) : res cbody :=
   match b with
-  | W0 c => match coord_of m c with Ok x => Ok (C1 [x]) | Err e => Err e end
   | W1 l => match mapR (coord_of m) l with Ok x => Ok (C1 x) | Err e => Err e end
   | W2 l => match mapR (mapR (coord_of m)) l with Ok x => Ok (C2 x) | Err e => Err e end
   | W3 l => match mapR (mapR (mapR (coord_of m))) l with Ok x => Ok (C3 x) | Err e => Err e end
